@@ -159,7 +159,9 @@ pub fn eval_level(layout: &DocTruth, dir: &DirTruth, now: (i64, u32), id: &str, 
         }
         // step names with glob metacharacters (or none at all) are outside what C02/C15 quantify
         // over: the file-name pattern built from them matches other steps' files too
-        if name.is_empty() || !name.chars().all(|c| c.is_ascii_alphanumeric() || c == '_' || c == '-') {
+        // (dots between such segments are fine: "build.release" owns "build.release.????????.link" and no
+        // file of it fits another step's pattern, a key-id prefix being eight characters)
+        if name.is_empty() || !name.split('.').all(|seg| !seg.is_empty() && seg.chars().all(|c| c.is_ascii_alphanumeric() || c == '_' || c == '-')) {
             ev.steps.push(StepEval { name, threshold, cands });
             ev.out_of_scope = true;
             continue;
@@ -591,6 +593,9 @@ fn judge_c08(t: &SupplyTrace, o: &SupplyOutcome, ev: &LevelEval, root_sig_bad: b
     }
     let mut levels = BTreeMap::new();
     collect_levels(ev, &mut levels);
+    if std::env::var_os("SCSIM_DEBUG").is_some() {
+        eprintln!("DEBUG c08 levels {:?} actors {:?}", levels.keys().collect::<Vec<_>>(), actors.iter().map(|a| (a.0.id.clone(), a.1.clone())).collect::<Vec<_>>());
+    }
     for (rep, events) in o.events.iter().enumerate() {
         let v = match o.verdicts.get(rep) {
             Some(v) => v,
@@ -598,21 +603,29 @@ fn judge_c08(t: &SupplyTrace, o: &SupplyOutcome, ev: &LevelEval, root_sig_bad: b
         };
         let started: Vec<&str> = events.iter().filter_map(|l| l.strip_prefix("start ")).collect();
         for id in &started {
-            // the level the actor belongs to now
-            let lid_owned = actors.iter().find(|a| a.0.id == *id).map(|a| a.1.clone()).unwrap_or_default();
-            let lid = lid_owned.as_str();
-            let bad = match levels.get(lid) {
-                Some(le) => {
-                    // (a failing inspection is not a stage before the inspections)
-                    let mut why: Vec<String> = le.fails.iter().filter(|x| x.prop != "C08").map(|x| format!("{}:{}", x.prop, x.clause)).collect();
-                    if lid == "root" && root_sig_bad {
-                        why.push("C01:owner-signature".into());
+            // the level(s) the actor belongs to now (a sub-layout filed twice is two levels running one
+            // script; the start is in order if any of them may run it)
+            let mut bad: Vec<String> = vec!["level-not-reachable".to_string()];
+            for lid_owned in actors.iter().filter(|a| a.0.id == *id).map(|a| a.1.clone()) {
+                let lid = lid_owned.as_str();
+                let b = match levels.get(lid) {
+                    Some(le) => {
+                        // (a failing inspection is not a stage before the inspections)
+                        let mut why: Vec<String> = le.fails.iter().filter(|x| x.prop != "C08").map(|x| format!("{}:{}", x.prop, x.clause)).collect();
+                        if lid == "root" && root_sig_bad {
+                            why.push("C01:owner-signature".into());
+                        }
+                        why
                     }
-                    why
+                    // the level is not reachable through valid authorized evidence at all
+                    None => vec!["level-not-reachable".to_string()],
+                };
+                if b.is_empty() {
+                    bad.clear();
+                    break;
                 }
-                // the level is not reachable through valid authorized evidence at all
-                None => vec!["level-not-reachable".to_string()],
-            };
+                bad = b;
+            }
             if !bad.is_empty() {
                 f.push(finding(
                     "C08",
